@@ -65,7 +65,20 @@ class Obligation:
         return d
 
 
+_HQ_MEMO = {}
+
+
 def _has_quantifier(e):
+    k = e.get_id()
+    hit = _HQ_MEMO.get(k)
+    if hit is not None and hit[1] is not None and z3.eq(hit[1], e):
+        return hit[0]
+    r = _has_quantifier0(e)
+    _HQ_MEMO[k] = (r, e)
+    return r
+
+
+def _has_quantifier0(e):
     seen = set()
     stack = [e]
     while stack:
@@ -78,6 +91,45 @@ def _has_quantifier(e):
         seen.add(i)
         stack.extend(x.children())
     return False
+
+
+_ATOM_MEMO = {}
+
+
+def _atoms_memo(h):
+    from .core import _atoms
+
+    k = h.get_id()
+    hit = _ATOM_MEMO.get(k)
+    if hit is not None and z3.eq(hit[1], h):
+        return hit[0]
+    a = frozenset(_atoms(h))
+    _ATOM_MEMO[k] = (a, h)
+    return a
+
+
+def slice_hyps(hyps, goal):
+    """the hypotheses connected to the goal through shared ground atoms (dropping hypotheses is sound)"""
+    from .core import _atoms
+
+    ground = [(h, _atoms_memo(h)) for h in hyps if not _has_quantifier(h)]
+    want = set(_atoms(goal))
+    chosen = []
+    rest = ground
+    changed = True
+    while changed:
+        changed = False
+        nxt = []
+        for h, at in rest:
+            if at & want:
+                chosen.append(h)
+                if not at <= want:
+                    want |= at
+                    changed = True
+            else:
+                nxt.append((h, at))
+        rest = nxt
+    return chosen
 
 
 def model_to_dict(m, limit=60):
@@ -265,12 +317,14 @@ class Session:
         self.solver_seconds += dt
         return verdict, backend, dt, model, smt2
 
-    def prove(self, oid, hyps, goal, *, function=None, kind="post", replay=None, detail=None, strings=False):
+    def prove(self, oid, hyps, goal, *, function=None, kind="post", replay=None, detail=None, strings=False, sliced=False):
         """Obligation: hyps ⇒ goal. `replay(model)` (optional) turns a counter-model into a concrete
         run of the real code; it returns a dict with at least 'confirmed' (bool)."""
         ob = self._new(oid, kind, function)
         if isinstance(goal, bool):
             goal = z3.BoolVal(goal)
+        if sliced:
+            hyps = slice_hyps(list(hyps), goal)
         verdict, backend, dt, model, smt2 = self._solve(list(hyps), z3.Not(goal), strings=strings)
         ob.backend, ob.seconds = backend, dt
         if detail:
